@@ -54,11 +54,17 @@ func (q *hqH) handled() int {
 // settle waits until the client has routed everything sent so far: the handler calls started plus the queue length stop changing.
 func (q *hqH) settle() {
 	last, since := -1, time.Now()
-	for dl := time.Now().Add(1500 * time.Millisecond); time.Now().Before(dl); time.Sleep(2 * time.Millisecond) {
+	for dl := time.Now().Add(3 * time.Second); time.Now().Before(dl); time.Sleep(2 * time.Millisecond) {
 		cur := q.handled() + len(q.h.c.handlerChannel)
 		if cur != last {
 			last, since = cur, time.Now()
-		} else if time.Since(since) > 120*time.Millisecond {
+			continue
+		}
+		if q.held == "no" && len(q.h.c.handlerChannel) > 0 {
+			since = time.Now() // a slow application is still working through its backlog
+			continue
+		}
+		if time.Since(since) > 120*time.Millisecond {
 			return
 		}
 	}
